@@ -16,7 +16,7 @@ HasEdit(q) == \E i \in 1..Len(q) : q[i].op = "edit"
 A_dict == {S("a", 5), R("b", 7), C0, E("a", 1)}
 A_dict_full == {S("a", 5), S("b", 6), R("b", 7), C0, E("a", 1), E("b", 10)}
 A_typed == {S("a", 5), R("a", 7), P(8), C0, E("a", 1), E("b", 10)}
-A_typed_q == {S("b", 5), R("a", 7), P(8), E("a", 1)}
+A_typed_q == {S("b", 5), R("a", 7), P(8), E("a", 1), E("b", 10)}      \* E("b", .): an edit of a child-only field next to a parent merge
 
 \* two processes: one has an edit_state block, the other any program of <= 2 operations
 PS2(A) == {[p1 |-> x, p2 |-> y] : x \in {q \in Progs(A, 2) : HasEdit(q)}, y \in Progs(A, 2)}
@@ -39,7 +39,7 @@ Sys_witness == {Sys("memory", "dict", TRUE), Sys("sqlite", "dict", TRUE)}
 
 \* quick instance: three editor programs against every program of <= 2 operations
 EdQ(kind) == IF kind = "typed"
-               THEN {<<E("a", 1)>>, <<E("a", 1), S("b", 5)>>, <<P(8), E("a", 1)>>}
+               THEN {<<E("a", 1)>>, <<E("a", 1), S("b", 5)>>, <<P(8), E("a", 1)>>, <<E("b", 10)>>}
                ELSE {<<E("a", 1)>>, <<E("a", 1), S("a", 5)>>, <<R("b", 7), E("a", 1)>>}
 PS_quick(kind) == {[p1 |-> x, p2 |-> y] : x \in EdQ(kind),
                                           y \in Progs(IF kind = "typed" THEN A_typed_q ELSE A_dict, 2)}
